@@ -17,6 +17,32 @@ elif kind=='once_ok':
     s=s.replace('#include <algorithm>','#include <algorithm>\n'+hdr,1)
     s=s.replace('namespace fixedmath \n{','namespace fixedmath \n{\n  static std::once_flag sq_once; static uint16_t sq_copy[256];\n',1)
     s=s.replace('value = as_fixed( square_root_tab(index) );','std::call_once(sq_once, []{ for(int k=0;k<256;++k) sq_copy[k]=square_root_tab(static_cast<uint8_t>(k)); });\n    value = as_fixed( sq_copy[index & 0xff] );',1)
+if kind in ('seqlock_ok','seqlock_bad'):
+    s=s.replace('#include <algorithm>','#include <algorithm>\n#include <atomic>\n',1)
+    recheck = 'if( s1 == s2 && (s1 & 1u) == 0 && k == value.v ) return as_fixed(r);' if kind=='seqlock_ok' else 'if( (s1 & 1u) == 0 && k == value.v ) return as_fixed(r);'
+    s=s.replace('  fixed_t sqrt_aprox(fixed_t value) noexcept\n    {','''  static fixed_t sqrt_aprox_impl(fixed_t value) noexcept;
+  static std::atomic<unsigned> sq_seq{0}; static std::atomic<int64_t> sq_key{0}; static std::atomic<int64_t> sq_res{0};
+  // process-wide last-result memo protected by a sequence lock: readers retry/ignore while a writer is active
+  fixed_t sqrt_aprox(fixed_t value) noexcept
+    {
+    unsigned const s1 = sq_seq.load(std::memory_order_acquire);
+    int64_t const k = sq_key.load(std::memory_order_relaxed);
+    int64_t const r = sq_res.load(std::memory_order_relaxed);
+    unsigned const s2 = sq_seq.load(std::memory_order_acquire);
+    (void)s2;
+    %s
+    fixed_t const out = sqrt_aprox_impl(value);
+    unsigned expected = s1 & ~1u;
+    if( value.v != 0 && sq_seq.compare_exchange_strong(expected, expected + 1) )   // single writer at a time
+      {
+      sq_key.store(value.v, std::memory_order_relaxed);
+      sq_res.store(out.v, std::memory_order_relaxed);
+      sq_seq.store(expected + 2, std::memory_order_release);
+      }
+    return out;
+    }
+  static fixed_t sqrt_aprox_impl(fixed_t value) noexcept
+    {''' % recheck,1)
 if kind in ('alloc_bad','alloc_ok'):
     s=s.replace('#include <algorithm>','#include <algorithm>\n#include <new>\n',1)
     fallback = 'return value;' if kind=='alloc_bad' else 'return as_fixed( ( static_cast<fixed_internal>( square_root_tab(static_cast<uint8_t>(index)) ) << (cl >> 1) ) >> 4 );'
